@@ -22,7 +22,7 @@ import PoetryVerif.Proofs.PyConvLeafAlts
 import PoetryVerif.Proofs.PyConvNotIn
 import PoetryVerif.Proofs.VRangeOps
 import PoetryVerif.Proofs.MarkerProj
-import PoetryVerif.Proofs.PyConvFullC
+import PoetryVerif.Proofs.PyConvFullLists
 import PoetryVerif.Proofs.PyConvWildNe
 
 set_option linter.unusedSimpArgs false
@@ -331,6 +331,25 @@ example : normalizePyConj [(">=", "3.8"), ("in", "3.8 3.9")] [[]] = .ok [[">=3.8
 example : normalizePyConj [(">=", "3.8"), ("not in", "3.8 3.9")] [[]] = .ok [[">=3.8", "!=3.8.*, !=3.9.*"]] := by
   decide
 
+/-- **each clause's alternatives are its own**: what a pair contributes is determined by that pair alone — with
+`normalize_conj_alternatives`, a conjunction holding any number of `in` / `not in` list clauses is printed as the
+product of the clauses' own alternatives, whatever the other clauses are (the `versions` list of
+`normalize_python_version_markers` does not leak from one list clause to the next). -/
+theorem pair_alternatives_own {op v : String} {a b : List String} (ha : PairAlts op v a) (hb : PairAlts op v b) :
+    a = b :=
+  pairAlts_unique ha hb
+
+example : normalizePyConj [("in", "3.8 3.9"), ("in", "3.9 3.10")] [[]] =
+    .ok [["3.8.*", "3.9.*"], ["3.8.*", "3.10.*"], ["3.9.*", "3.9.*"], ["3.9.*", "3.10.*"]] := by decide
+
+example : normalizePyConj [("in", "3.9 3.10"), ("in", "3.8 3.9")] [[]] =
+    .ok [["3.9.*", "3.8.*"], ["3.9.*", "3.9.*"], ["3.10.*", "3.8.*"], ["3.10.*", "3.9.*"]] := by decide
+
+example : normalizePyConj [("not in", "3.8 3.9"), ("in", "3.10")] [[]] = .ok [["!=3.8.*, !=3.9.*", "3.10.*"]] ∧
+    normalizePyConj [("in", "3.10"), ("not in", "3.8 3.9")] [[]] = .ok [["3.10.*", "!=3.8.*, !=3.9.*"]] ∧
+    normalizePyConj [("not in", "3.8"), ("not in", "3.9 3.10")] [[]] = .ok [["!=3.8.*", "!=3.9.*, !=3.10.*"]] := by
+  decide
+
 /-- **the one-sided part against `validate`, `in` and `not in` lists included** (leaf invariant `PyGL E`: coherent, evaluable
 single markers; python ones comparison items of the exact shape, `python_version in "X0.Y0 …"` or
 `python_version not in "X0.Y0 …"`). -/
@@ -434,26 +453,27 @@ theorem createNested_excluded_wildcard_partial (E : Env) (S : LeafSpec (leafEval
 
 /-! ## against poetry's own `validate`, no leaf-level hypothesis
 
-On the domain where C07's leaf specification is proved outright — `FullLeafC E`: single markers on plain string
+On the domain where C07's leaf specification is proved outright — `FullLeafLs E`: single markers on plain string
 variables and `extra` (C07's fragments), `python_version op "a.b"` and `python_full_version op "a.b.c"` with a
-comparison operator or `~=` — under an environment of interpreter `X.Y.Z` with a set of active extras.  The python_version /
-python_full_version pairing of `_merge_single_markers` is proved sound (`pairSound_py`, `pairSound_pyC`: Proofs/PyConvPairFinal.lean, PyConvPairCompat.lean),
-so nothing about the simplifier is assumed. -/
+comparison operator or `~=`, `python_version in / not in "X0.Y0 X1.Y1 …"` — under an environment of interpreter `X.Y.Z` with a set of active extras.  The python_version /
+python_full_version pairing of `_merge_single_markers` is proved sound (`pairSound_py`, `pairSound_pyC`, C07's `pairSound_pyLists`),
+so nothing about the simplifier is assumed; conjunctions and disjunctions with any number of list clauses are
+covered (the `list-clauses` universe of the harness). -/
 
 /-- **`get_python_constraint_from_marker` is an upper bound**: if the marker validates to true on the environment
 of `X.Y.Z`, its Python constraint admits `X.Y.Z`. -/
 theorem pyConstraint_upper_validate {E : Env} {ex : List String} (hX : E.extras = some ex) {X Y Z : Nat}
-    (hE : EnvPy E X Y Z) (m : M) (g : VC) (hg : M.Good (FullLeafC E) m) (h : gpc m = .ok g)
+    (hE : EnvPy E X Y Z) (m : M) (g : VC) (hg : M.Good (FullLeafLs E) m) (h : gpc m = .ok g)
     (hv : M.validate E m = .ok true) : g.allowsPlain (pyV X Y Z) = true :=
-  gpc_upper_validate_fullC hX hE m g hg h hv
+  gpc_upper_validate_fullLs hX hE m g hg h hv
 
 /-- **`get_python_constraint_from_marker` is exact on python-only markers**: `validate` on the environment of
 `X.Y.Z` returns exactly whether the constraint admits `X.Y.Z`. -/
 theorem pyConstraint_exact_validate {E : Env} {ex : List String} (hX : E.extras = some ex) {X Y Z : Nat}
-    (hE : EnvPy E X Y Z) (m : M) (g : VC) (hg : M.Good (FullLeafC E) m)
+    (hE : EnvPy E X Y Z) (m : M) (g : VC) (hg : M.Good (FullLeafLs E) m)
     (hvars : ∀ n ∈ M.vars m, pyNames.contains n = true) (h : gpc m = .ok g) :
     M.validate E m = .ok (g.allowsPlain (pyV X Y Z)) :=
-  gpc_exact_validate_fullC hX hE m g hg hvars h
+  gpc_exact_validate_fullLs hX hE m g hg hvars h
 
 /-- **`create_nested_marker` then `parse_marker` and `validate`**, for a Python range of the domain whose bounds have
 two or three components (`PyPrec2`): the marker read back lies in the domain and validates, on the environment of
